@@ -173,27 +173,56 @@ type listener struct {
 	url      string
 	option   []transport.Option
 	options  *transport.Options
+	mutex    sync.Mutex // guards acceptor and closed
 	acceptor transport.Acceptor
+	closed   bool
 }
 
 // Acceptor returned the acceptor
 func (l *listener) Acceptor() transport.Acceptor {
+	l.mutex.Lock()
+	defer l.mutex.Unlock()
 	return l.acceptor
 }
 
 // Close listener
 func (l *listener) Close() error {
 	l.bs.removeListener(l.url)
-	if l.acceptor != nil {
-		return l.acceptor.Close()
+
+	l.mutex.Lock()
+	l.closed = true
+	acceptor := l.acceptor
+	l.mutex.Unlock()
+
+	if acceptor != nil {
+		return acceptor.Close()
 	}
+	return nil
+}
+
+// setAcceptor publishes the acceptor created by Sync, unless the listener was
+// closed or the bootstrap shut down before the accept loop could start.
+func (l *listener) setAcceptor(acceptor transport.Acceptor) error {
+	l.mutex.Lock()
+	defer l.mutex.Unlock()
+
+	switch {
+	case nil != l.acceptor:
+		_ = acceptor.Close()
+		return fmt.Errorf("duplicate call Listener:Sync")
+	case l.closed || nil != l.bs.Context().Err():
+		_ = acceptor.Close()
+		return ErrServerClosed
+	}
+
+	l.acceptor = acceptor
 	return nil
 }
 
 // Sync accept new transport from listener
 func (l *listener) Sync() error {
 
-	if nil != l.acceptor {
+	if nil != l.Acceptor() {
 		return fmt.Errorf("duplicate call Listener:Sync")
 	}
 
@@ -202,13 +231,18 @@ func (l *listener) Sync() error {
 		return err
 	}
 
-	if l.acceptor, err = l.bs.transportFactory.Listen(l.options); nil != err {
+	acceptor, err := l.bs.transportFactory.Listen(l.options)
+	if nil != err {
+		return err
+	}
+
+	if err = l.setAcceptor(acceptor); nil != err {
 		return err
 	}
 
 	for {
 		// accept the transport
-		t, err := l.acceptor.Accept()
+		t, err := acceptor.Accept()
 		if nil != err {
 			select {
 			case <-l.options.Context.Done():
